@@ -121,6 +121,7 @@ func checkC02(r *core.Run) {
 	c02BIP341(r, p)
 	c02LeafHash(r, p, "R-C02-bip341")
 	c02Tags(r, p)
+	c02CodesepPos(r, p)
 	c02Legacy(r, p)
 }
 
@@ -1095,4 +1096,69 @@ func c02Strip(v ssa.Value) ssa.Value {
 			return v
 		}
 	}
+}
+
+// c02CodesepPos: the codeseparator position committed to by a tapscript signature is the index of the last
+// executed OP_CODESEPARATOR among the script's opcodes, counted from 0, or 0xffffffff when none was
+// executed.  In the interpreter: the field starts as 0xffffffff, and every other store takes the loop's
+// opcode counter itself - a counter that starts at 0 and is advanced once per opcode, after the opcode was
+// dispatched (a store of counter+1, or a counter starting at 1, shifts every committed position).
+func c02CodesepPos(r *core.Run, p *core.Program) {
+	const rule = "R-C02-bip341"
+	ev := p.Func("lib/script.evalScript")
+	if ev == nil {
+		r.Fail(rule, "codeseparator-position", "-", "evalScript not found")
+		return
+	}
+	loops := an.LoopBlocks(ev)
+	nInit, nPos := 0, 0
+	var bad []string
+	an.Instrs(ev, func(i ssa.Instruction) {
+		st, ok := i.(*ssa.Store)
+		if !ok {
+			return
+		}
+		fa, ok := st.Addr.(*ssa.FieldAddr)
+		if !ok {
+			return
+		}
+		if f, _ := an.FieldOf(fa); f != "lib/btc.ScriptExecutionData.M_codeseparator_pos" {
+			return
+		}
+		pos := p.Pos(an.InstrPos(i))
+		if k, isC := an.ConstOf(st.Val); isC {
+			if k.IsInt64() && k.Int64() == 0xFFFFFFFF && !loops[st.Block()] {
+				nInit++
+			} else {
+				bad = append(bad, "the position is set to the constant "+k.String()+" at "+pos)
+			}
+			return
+		}
+		nPos++
+		phi, isPhi := c17StripConv(st.Val).(*ssa.Phi)
+		if !isPhi || !loops[phi.Block()] {
+			bad = append(bad, "the position stored at "+pos+" is "+clip(an.Expr(st.Val), 60)+", not the opcode counter of the interpreter loop")
+			return
+		}
+		e := an.Expr(phi)
+		okStart, okStep := false, false
+		for _, ed := range phi.Edges {
+			switch an.Expr(ed) {
+			case "0":
+				okStart = true
+			case "(" + e + " + 1)":
+				okStep = true
+			default:
+				bad = append(bad, "the opcode counter stored at "+pos+" can also be "+clip(an.Expr(ed), 60))
+			}
+		}
+		if !okStart || !okStep {
+			bad = append(bad, "the opcode counter stored at "+pos+" does not start at 0 and advance by one per opcode")
+		}
+	})
+	if nInit != 1 || nPos < 1 {
+		bad = append(bad, fmt.Sprintf("%d initialisations to 0xffffffff before the loop and %d position stores found", nInit, nPos))
+	}
+	sort.Strings(bad)
+	r.Check(len(bad) == 0, rule, "codeseparator-position", p.Pos(ev.Pos()), "initialised to 0xffffffff; OP_CODESEPARATOR stores the loop's opcode counter (from 0, +1 per opcode, advanced after dispatch)", strings.Join(bad, "; "))
 }
